@@ -123,6 +123,9 @@ func boundedValueRules() bool {
 			bad("%s SetSoftwareComponents(valid): %v", prof, err)
 		}
 	}
+	if err := ValidateSwComponents([]ISwComponent{(*SwComponent)(nil)}); err == nil {
+		bad("ValidateSwComponents([nil]) accepted")
+	}
 	for _, s := range hCertNeighbours() {
 		for _, prof := range []string{Profile1Name, Profile2Name} {
 			want := hEAN13p5(s) || (prof == Profile1Name && hEAN13(s))
